@@ -1,5 +1,7 @@
 import Cppcms.C12.Roundtrip
 import Cppcms.C12.Feed
+import Cppcms.C12.Form
+import Cppcms.C12.Header
 /-!
 # C12 property theorems
 
@@ -127,6 +129,70 @@ theorem multipart_roundtrip (cfg : Cfg) (bkey : Bytes) (hb : cfg.boundary = Spec
   · have := h3 hm; simp [hm]; omega
   · simp [hm]
 
+/-- **encodeHeader_ok**: the header block `Spec.encodeHeader` writes for a well-formed part
+(names without CR/LF — any other byte, including quotes, backslashes, non-ASCII —, MIME type
+empty or a plain lower-case `type/subtype`) is accepted by the parser as a whole (the naive
+CRLFCRLF scanner stops exactly at its last byte) and read back as that part's name, file name
+and MIME type. -/
+theorem encodeHeader_ok (bkey : Bytes) (p : Part) (hw : Spec.WFpart bkey p) :
+    headerOK (Spec.encodeHeader p) { name := p.name, filename := p.filename, mime := p.mime } = true :=
+  encodeHeader_headerOK bkey p hw
+
+/-- **multipart_roundtrip_parts**: for well-formed parts `ps` (see `Spec.WFparts`), fields
+within the field limit, a boundary key without CR, and *any* chunking of `Spec.encode bkey ps`:
+the request is accepted and hands over exactly `ps` — names, file names, MIME types,
+contents byte for byte, in order. -/
+theorem multipart_roundtrip_parts (cfg : Cfg) (bkey : Bytes) (hb : cfg.boundary = Spec.delimiter bkey)
+    (hk : Spec.WFbkey bkey) (hdisk : cfg.diskOk = true) (ps : List Part) (hwf : Spec.WFparts bkey ps)
+    (hsz : ∀ p ∈ ps, p.mime = [] → p.data.length ≤ cfg.fieldLimit) (cs : List Bytes)
+    (hcs : Spec.IsChunking cs (Spec.encode bkey ps)) :
+    run cfg cs.flatten.length {} cs = .ready ps := by
+  let items : List Item := ps.map fun p => { hdr := Spec.encodeHeader p, info := metaOf p, data := p.data }
+  have hparts : items.map Item.part = ps := by
+    simp only [items, List.map_map]
+    conv => rhs; rw [← List.map_id ps]
+    apply List.map_congr_left
+    intro p _
+    rfl
+  have henc : Spec.encodeWith bkey (items.map fun it => (it.hdr, it.data)) = Spec.encode bkey ps := by
+    simp only [items, List.map_map, Spec.encode]
+    rfl
+  have := multipart_roundtrip cfg bkey hb hk.2 hdisk items (by
+    intro it hit
+    simp only [items, List.mem_map] at hit
+    obtain ⟨p, hp, rfl⟩ := hit
+    exact ⟨encodeHeader_headerOK bkey p (hwf p hp), (hwf p hp).2.2, hsz p hp⟩) cs (by rw [henc]; exact hcs)
+  rw [this, hparts]
+
+/-- non-vacuity: a field whose name contains a quote and a backslash and whose content is a
+delimiter look-alike, and a file, are well formed for boundary key `xy` -/
+example : Spec.WFparts [120, 121]
+    [{ name := [97, 34, 92], filename := [], mime := [], data := [13, 10, 45, 45, 120, 13, 10, 45, 45, 120] },
+     { name := [102], filename := [122, 46, 116], mime := [116, 47, 112], data := [0, 255] }] := by
+  intro p hp
+  simp only [List.mem_cons, List.mem_nil_iff, or_false] at hp
+  rcases hp with rfl | rfl
+  · refine ⟨by decide, Or.inl rfl, ?_⟩
+    intro h
+    obtain ⟨s, t, e⟩ := h
+    have h1 : (s ++ Spec.delimiter [120, 121] ++ t).take (s.length + 6) = s ++ Spec.delimiter [120, 121] := by
+      rw [List.take_append_of_le_length (by simp [Spec.delimiter, Spec.crlf, Spec.dashes])]
+      exact List.take_of_length_le (by simp [Spec.delimiter, Spec.crlf, Spec.dashes])
+    rw [e] at h1
+    have hlen := congrArg List.length e
+    simp [Spec.delimiter, Spec.crlf, Spec.dashes] at hlen
+    have hs : s.length ≤ 4 := by omega
+    match s, hs with
+    | [], _ => simp [Spec.delimiter, Spec.crlf, Spec.dashes] at h1
+    | [a], _ => simp [Spec.delimiter, Spec.crlf, Spec.dashes] at h1
+    | [a, b], _ => simp [Spec.delimiter, Spec.crlf, Spec.dashes] at h1
+    | [a, b, c], _ => simp [Spec.delimiter, Spec.crlf, Spec.dashes] at h1
+    | [a, b, c, d], _ => simp [Spec.delimiter, Spec.crlf, Spec.dashes] at h1
+  · refine ⟨by decide, Or.inr ⟨[116], [112], rfl, by decide, by decide, by decide⟩, ?_⟩
+    intro h
+    have := h.length_le
+    simp [Spec.delimiter, Spec.crlf, Spec.dashes] at this
+
 /-! ## limits and refusals -/
 
 /-- what a `Seen` hands to the application -/
@@ -189,6 +255,40 @@ theorem urlencoded_witness :
     parseForm [97, 61, 98, 38, 99, 38, 101, 61, 102] = ([([97], [98])], false) := by
   simp [parseForm, parseFormLoop, splitAt1, List.span, List.span.loop, C15.urldecode, Gen.formAmp, Gen.formEq,
     C15.Gen.urldecPlus, C15.Gen.urldecPct]
+
+/-- **urlencoded_roundtrip**: `parse_form_urlencoded` applied to `k₁=v₁&k₂=v₂…` as written by
+`util::urlencode` (C15's model) returns exactly the pairs, in order, and `true` — for all
+byte strings as values and all non-empty byte strings as keys. -/
+theorem urlencoded_roundtrip (kvs : List (Bytes × Bytes)) (hkeys : ∀ kv ∈ kvs, kv.1 ≠ []) :
+    parseForm (Spec.encodeFormWith C15.urlencode kvs) = (kvs, true) := by
+  unfold parseForm
+  rw [parseFormLoop_encode kvs [] _ hkeys (encodeForm_length kvs)]
+  simp
+
+/-- … and the request delivers them as `post()` under any chunking -/
+theorem urlencoded_request_roundtrip (lim : Limits) (ct : Bytes) (kvs : List (Bytes × Bytes))
+    (hkeys : ∀ kv ∈ kvs, kv.1 ≠ []) (hne : kvs ≠ []) (hmt : mediaType ct = ctUrlencoded) (cs : List Bytes)
+    (hcs : cs.flatten = Spec.encodeFormWith C15.urlencode kvs)
+    (hlim : cs.flatten.length ≤ lim.contentLimit) :
+    request lim ct cs.flatten.length cs = .handled (mmOfList kvs) [] := by
+  have hpos : cs.flatten.length ≠ 0 := by
+    rw [hcs]
+    have := encodeForm_length kvs
+    have : 0 < kvs.length := List.length_pos_iff.mpr hne
+    omega
+  have hne' : (ctUrlencoded == ctMultipart) = false := by decide
+  have hgt : ¬ cs.flatten.length > lim.contentLimit := by omega
+  have hrt := urlencoded_roundtrip kvs hkeys
+  have hstart : start lim ct cs.flatten.length = .ok (.full true) := by
+    unfold start
+    rw [if_neg hpos, hmt]
+    simp only [hne', Bool.false_eq_true, if_false, hgt, beq_self_eq_true]
+  unfold request
+  rw [hstart]
+  simp only [Nat.lt_irrefl, if_false, if_true, List.take_length, hcs, hrt]
+
+example : parseForm (Spec.encodeFormWith C15.urlencode [([97], [38, 61]), ([61], [])]) = ([([97], [38, 61]), ([61], [])], true) :=
+  urlencoded_roundtrip _ (by decide)
 
 /-! ## the read loop and content filters -/
 
